@@ -112,6 +112,7 @@ def r2(ctx):
     rep.evaluations += len(paths)
     limit = F(P("self"), R.rp_limit)
     n_under = n_empty = n_sweep = 0
+    n_removed_subs = 0
     for p in paths:
         calls = [e for e in p.events if e.kind == "call"]
         names = [e.name.split("::")[-1] for e in calls]
@@ -153,11 +154,13 @@ def r2(ctx):
         okr = isinstance(rng, Struct) and rng.get("start") == 0 and any(isinstance(x, tuple) and x[0] == "call" and x[1].endswith("::len") for x in atoms(rng.get("end")))
         rep.check(okr, "sweep:index-range", "victim index in 0..store.len()", "victim index drawn from %s" % short(rng, 80), b.loc())
         # subtraction of each removed record
-        subs = [e for e in calls if e.name.endswith("fetch_sub")]
-        removed_some = any(isinstance(c, tuple) and c[0] == "discr" and "cbarg" in repr(c) and truth == 1 for c, truth, _s, _at in p.state.pc)
-        if removed_some:
-            oks = len(subs) >= 1 and all(any(isinstance(x, tuple) and x[0] == "cbarg" for x in atoms(sb_.args[1])) and any(isinstance(x, tuple) and x[0] in ("len",) or (isinstance(x, tuple) and x[0] == "call" and x[1].endswith("::len")) for x in atoms(sb_.args[1])) for sb_ in subs)
-            rep.check(oks, "sweep:subtracts-removed-size", "usage -= len(removed record)", "the sweep does not subtract the size of each removed record (%d subtractions)" % len(subs), b.loc())
+        # subtractions for the records the removal handed back (walked by match / flatten / if-let: any form)
+        subs = [e for e in calls if e.name.endswith("fetch_sub") and (any(isinstance(x, tuple) and x and x[0] == "cbarg" for x in atoms(e.args[1])) or rm.result in atoms(e.args[1]))]
+        n_removed_subs += len(subs)
+        for sb_ in subs:
+            oks = any(isinstance(x, tuple) and x[0] in ("len",) or (isinstance(x, tuple) and x[0] == "call" and x[1].endswith("::len")) for x in atoms(sb_.args[1]))
+            rep.check(oks, "sweep:subtracts-removed-size", "usage -= len(removed record)", "the sweep subtracts %s for a removed record, not its size" % short(sb_.args[1], 60), b.loc())
+    rep.check(n_removed_subs > 0, "sweep:subtracts-removed-size", "the size of every evicted record is subtracted", "the sweep never subtracts the size of the records it evicts: the usage stays above the limit and everything is evicted", b.loc())
     rep.check(n_under > 0 and n_empty > 0 and n_sweep > 0, "sweep:cases", "paths: under limit / empty store / eviction", "the sweep lacks one of the cases under-limit/empty-store/eviction (%d/%d/%d)" % (n_under, n_empty, n_sweep), b.loc())
     # it is a loop
     rep.check(bool(b.has_cycle()), "sweep:is-loop", "eviction repeats until usage <= limit", "the eviction code contains no loop: one eviction per store cannot restore the limit", b.loc())
